@@ -260,16 +260,20 @@ func streamChangelog(g *core.G) {
 		g.Emit("law-cltrunc", core.Hex(text), strconv.Itoa(m), "0")
 		g.Emit("law-clfaithful", core.Hex(text), core.Hex(expectedClDump(models)))
 		// every truncation point (thorough) / a sample of them (quick)
+		// every offset of short texts in the thorough tier; longer ones at ~600 offsets (plus the
+		// buffer boundaries below): the prefixes of a text of n bytes take n^2/2 bytes
 		step := 1
 		if !g.Thorough {
 			step = 1 + len(text)/40
+		} else if len(text) > 1500 {
+			step = 1 + len(text)/600
 		}
 		cuts := []int{}
 		for cut := r.Intn(step); cut < len(text); cut += step {
 			cuts = append(cuts, cut)
 		}
 		// and the places where a reader's buffer ends: multiples of 4096 and 65536, +-1
-		if !g.Thorough {
+		if !g.Thorough || step > 1 {
 			for c := 4096; c < len(text)+2; c += 4096 {
 				for _, d := range []int{-1, 0, 1} {
 					if c+d < len(text) && (c <= 16384 || c%65536 == 0 || r.Chance(1, 6)) {
